@@ -487,18 +487,20 @@ def onFrameBegin (s : S) (h : Hdr) : S :=
       else s
     onMessageFrameBegin s h.length
 
+/-- `Utf8Validator.validate` only reports a reject met inside its own loop: an empty chunk is "valid" even when the
+validator already sits in the reject state -/
+def utf8Bad (s : S) (payload : Bytes) : Bool := u8run s.utf8 payload = .rej && !payload.isEmpty
+
+/-- the validator state and `utf8validateLast` after one more chunk -/
+def setUtf8 (s : S) (payload : Bytes) : S :=
+  { s with utf8 := u8run s.utf8 payload, utf8Ok := !(utf8Bad s payload), utf8Ends := u8run s.utf8 payload = .s0 }
+
 /-- incremental UTF-8 validation of one payload chunk of a text message; the Bool says "go on" -/
 def utf8Step (s : S) (payload : Bytes) : S × Bool :=
   if s.utf8On && !s.msgCompressed then
-    let u := u8run s.utf8 payload
-    -- `Utf8Validator.validate` only reports a reject met inside its own loop: an empty chunk is "valid"
-    -- even when the validator already sits in the reject state
-    let bad := u = .rej && !payload.isEmpty
-    let s := { s with utf8 := u, utf8Ok := !bad, utf8Ends := u = .s0 }
-    if bad then
-      let r := violation s 1007
-      (r.1, !r.2)
-    else (s, true)
+    if utf8Bad s payload then
+      ((violation (setUtf8 s payload) 1007).1, !(violation (setUtf8 s payload) 1007).2)
+    else (setUtf8 s payload, true)
   else (s, true)
 
 /-- `onMessageFrameData(payload)` -/
